@@ -14,7 +14,8 @@ META = {
             "control character, a stem that is no reserved device name (also after clipping and after the counter), "
             "no leading period (glif), no trailing period/space, carries '.glif' / 'glyphs.', and is <= 255 bytes "
             "outside the exact known class len257 (refuted inside it). Container level: assigned names stay pairwise "
-            "distinct ignoring case and stable under every history (see C06). The model is compared with "
+            "distinct ignoring case and stable under every history, and every name in a font built through the API "
+            "is an assigned name and so satisfies the clauses above (see C06 for the container model). The model is compared with "
             "norad::user_name_to_file_name on all strings of length <= 3 over a 15-symbol alphabet, reserved words, "
             "every clip boundary in every UTF-8 width mix, chains of 0..100 forced clashes and random names.",
     "note": "Trusted: Coq kernel + VM; the hand-written model (tied by the differential run, not by proof); "
